@@ -162,6 +162,8 @@ type MsgOpts struct {
 	// encoding and back, because unregistered tags are written as hex and come back identical anyway this is
 	// not required; kept false).
 	Labels func(...string)
+	// OnlyOps: batch items use these operations only (and no unknown ones) when non-empty.
+	OnlyOps []kmip.Operation
 }
 
 type G struct {
@@ -251,6 +253,14 @@ func (g *G) finish(v reflect.Value) {
 func NewG(t *rapid.T, o MsgOpts) *G { return newG(t, o) }
 
 func (g *G) opChoice() (OpEntry, bool) {
+	if len(g.O.OnlyOps) > 0 {
+		op := rapid.SampledFrom(g.O.OnlyOps).Draw(g.T, g.lbl("onlyop"))
+		for _, e := range Ops {
+			if e.Op == op {
+				return e, true
+			}
+		}
+	}
 	if !g.O.NoUnknownOps && rapid.IntRange(0, 11).Draw(g.T, g.lbl("unknownop")) == 0 {
 		var code kmip.Operation
 		if rapid.Bool().Draw(g.T, g.lbl("namedunimpl")) {
@@ -447,8 +457,23 @@ func (g *G) Attribute() kmip.Attribute {
 		v.Tag = kmip.TagAttributeValue
 		a.AttributeValue = v
 		g.label("attr=custom")
-	case 1: // arbitrary unknown name
+	case 1: // arbitrary unknown name; half of the time a near miss of a standard name (other case, extra blank, a prefix)
 		name := Text(g.T, g.lbl("uname"), g.O.Alphabet, 14)
+		if rapid.Bool().Draw(g.T, g.lbl("nearmiss")) {
+			std := rapid.SampledFrom(StdAttrNames).Draw(g.T, g.lbl("near"))
+			switch rapid.IntRange(0, 4).Draw(g.T, g.lbl("nearkind")) {
+			case 0:
+				name = strings.ToLower(std)
+			case 1:
+				name = strings.ToUpper(std)
+			case 2:
+				name = std[:1] + strings.ToLower(std[1:])
+			case 3:
+				name = std + " "
+			default:
+				name = std[:len(std)-1]
+			}
+		}
 		if _, std := pins.Attributes[name]; std {
 			name += "?"
 		}
